@@ -379,6 +379,10 @@ func parsePossibilityArchs(input *input, possi *Possibility) error {
 /* */
 func parsePossibilityArch(input *input, possi *Possibility) error {
 	eatWhitespace(input)
+	if input.Peek() == ']' {
+		/* whitespace before the closing bracket, not another name */
+		return nil
+	}
 	arch := ""
 
 	// Exclamation marks may be prepended to each of the names. (It is not
@@ -443,6 +447,10 @@ func parsePossibilityStageSet(input *input, possi *Possibility) error {
 /* */
 func parsePossibilityStage(input *input, stageSet *StageSet) error {
 	eatWhitespace(input)
+	if input.Peek() == '>' {
+		/* whitespace before the closing bracket, not another name */
+		return nil
+	}
 
 	stage := Stage{}
 	for {
